@@ -42,6 +42,15 @@ class ProcLoop:
         for n in ast.walk(node):
             if isinstance(n, ast.Name) and isinstance(n.ctx, ast.Store):
                 cur = st.loc.get(n.id)
+                if isinstance(cur, V.VNone):
+                    # bound to None before the loop and assigned inside it: at the head of a later round it may hold
+                    # what an earlier round stored (a value "None or an edge"); any other kind of value is not guessed
+                    carried = _loop_carried_none(ex, node, n.id, tag)
+                    if carried is not None:
+                        st.loc[n.id] = carried
+                        if isinstance(carried, VDyn):
+                            st.assume(carried.well_formed())
+                    continue
                 if isinstance(cur, V.Value) and not isinstance(cur, (SList,)):
                     try:
                         st.loc[n.id] = _fresh_like(cur, "%s.%s" % (tag, n.id))   # bound before the loop: some value
@@ -74,6 +83,35 @@ class ProcLoop:
         if self.back:
             out += self.back(ex, st.ghost.get("head", {}), st)
         return out
+
+
+def _loop_carried_none(ex, loop, name, tag):
+    """value at the loop head of a local that is None before the loop: None if every assignment in the loop stores None,
+    an optional edge if the loop stores a variable that iterates over self.in_edges / self.out_edges; otherwise the
+    unit is not supported (no guessing)"""
+    rhs = []
+    for n in ast.walk(loop):
+        if isinstance(n, ast.Assign) and any(isinstance(t, ast.Name) and t.id == name for t in n.targets):
+            rhs.append(n.value)
+        elif isinstance(n, (ast.AugAssign, ast.For, ast.With, ast.NamedExpr)):
+            tg = getattr(n, "target", None)
+            if isinstance(tg, ast.Name) and tg.id == name:
+                raise Unsupported("loop-carried local %s (None before the loop) is rebound by %s" % (name, type(n).__name__))
+    rhs = [r for r in rhs if not (isinstance(r, ast.Constant) and r.value is None)]
+    if not rhs:
+        return None                      # stays None
+    for r in rhs:
+        ok = False
+        if isinstance(r, ast.Name):
+            for f in ast.walk(ex.ctx.fnode):
+                if (isinstance(f, ast.For) and isinstance(f.target, ast.Name) and f.target.id == r.id
+                        and isinstance(f.iter, ast.Attribute) and isinstance(f.iter.value, ast.Name) and f.iter.value.id == "self"
+                        and f.iter.attr in ("in_edges", "out_edges")):
+                    ok = True
+        if not ok:
+            # (values of different kinds stored on different branches -- an index here, an edge there -- are not modelled)
+            raise Unsupported("loop-carried local %s is None before the loop and gets values of other / several kinds inside it" % name)
+    return VOpt(z3.Bool("%s.%s.isnone" % (tag, name)), VObj(z3.Int("%s.%s" % (tag, name)), "edge"))
 
 
 class CancelLoop:
